@@ -109,7 +109,10 @@ DgramAlphabet(s) ==
               \cup {Msg(id, TRUE, qq, 2, FALSE, FALSE, -1) : id \in ids, qq \in qs}
               \cup {Msg(id, TRUE, NoQ, rc, FALSE, FALSE, -1) : id \in ids, rc \in {0, 2}}
               \cup {Msg(id, TRUE, NoQ, 2, TRUE, FALSE, -1) : id \in ids}
-              \cup {Msg(id, FALSE, qq, 0, FALSE, FALSE, -1) : id \in ids, qq \in qs}}
+              \cup {Msg(id, FALSE, qq, 0, FALSE, FALSE, -1) : id \in ids, qq \in qs}
+              \* the asked question with one component changed: type, class,
+              \* letter case (still the same question), QDCOUNT 2
+              \cup {Msg(s.att, TRUE, v + s.q, 0, TRUE, FALSE, -1) : v \in {100, 200, 300, 400}}}
      \cup {[kind |-> "short", f |-> NoDgram.f], [kind |-> "ioerr", f |-> NoDgram.f]}
 
 --------------------------------------------------------------------------
